@@ -20,7 +20,7 @@ print(' '.join(out))
 PY
 )
   [ -n "$(git -C /repo status --short)" ] && { echo "/repo not clean"; exit 3; }
-  git -C /repo apply seeded/$s/patch.diff || { echo "$s: patch does not apply"; continue; }
+  git -C /repo apply "$PWD/seeded/$s/patch.diff" || { echo "$s: patch does not apply"; continue; }
   RES=""
   for id in $IDS; do
     ./check.sh $id quick >/tmp/seedfinal.out 2>&1; RC=$?
